@@ -482,7 +482,7 @@ func comboSpec(idx int) fspec {
 }
 
 func runC07(c *Ctx) {
-	stride := c.Pick(2, 1)
+	stride := c.Pick(1, 1)
 	c.Parallel("specs", ref.NearestEven, func(sh *mon.Shard, r *gen.RNG) {
 		j := &fmtJudge{ctx: c, sh: sh}
 		reps := c.N(1, 3)
@@ -523,7 +523,7 @@ func runC07(c *Ctx) {
 	})
 	c.Parallel("values", ref.NearestEven, func(sh *mon.Shard, r *gen.RNG) {
 		j := &fmtJudge{ctx: c, sh: sh}
-		n := c.N(25000, 300000)
+		n := c.N(60000, 400000)
 		for i := 0; i < n; i++ {
 			sp := makeSpec(fmtVerbs[r.Intn(6)], r.Pick(0, 0, 0, r.Intn(32)), r.Pick(-1, -1, r.Range(1, 40)), r.Pick(-1, r.Range(0, 40), r.Range(0, 8)))
 			if i%4 == 1 {
